@@ -95,6 +95,53 @@ def pair_case(r, faults=True, rounds=None, ideal=False, drain=None, use_credit=T
     return ops, stats
 
 
+def ackflood_case(r):
+    """C13: an honest pair gets an RTT estimate, idles, then endpoint `e` is handed a few hundred data frames
+    whose ids are >= 32 apart (one acknowledgement group each), so that far more acknowledgement data is owed
+    than fits one frame; all credit comes from step(), flushes follow at short intervals."""
+    c = pick_cfg(r)
+    c["FW"] = r.choice([64, 4096, 4096])
+    c["bw"] = r.choice([5000, 20000, 100000, 1000000])
+    nsent = 0
+    ops = ["seed %d" % r.randrange(U32)] + hcnew_lines(c)
+    now = 0
+    e = r.randrange(2)
+    o = 1 - e
+    for t in range(r.choice([4, 8])):
+        now += r.choice([20, 50, 100, 100])
+        for x in (0, 1):
+            for _ in range(r.choice([1, 1, 2])):
+                ops.append("send %d %d %d %d %d" % (x, r.randrange(4), r.randrange(4), pick_len(r, min(c["alloc"][1 - x], 3 * F)), nsent))
+                nsent += 1
+            ops.append("step %d %d" % (x, now))
+            ops.append("flush %d" % x)
+            ops.append("relay %d %d 0 0 0 1" % (x, 1 - x))
+            ops.append("recv %d" % (1 - x))
+    for t in range(r.choice([1, 3, 6])):
+        now += r.choice([200, 500, 1000])
+        for x in (0, 1):
+            ops.append("step %d %d" % (x, now))
+            ops.append("flush %d" % x)
+            ops.append("relay %d %d 0 0 0 1" % (x, 1 - x))
+            ops.append("recv %d" % (1 - x))
+    ngroups = r.choice([170, 200, 400, 1000])
+    stride = r.choice([32, 33, 40, min(63, c["FW"] - 1)])
+    fid = (c["fb"][o] + 200) % U32
+    for i in range(ngroups):
+        ops.append("frame %d data %d %d 0" % (e, fid, r.randrange(2)))
+        fid = (fid + stride) % U32
+    for t in range(r.choice([10, 25, 40])):
+        now += r.choice([0, 1, 5, 20, 50, 100])
+        ops.append("step %d %d" % (e, now))
+        ops.append("flush %d" % e)
+        if r.random() < 0.5:
+            ops.append("relay %d %d 0 0 0 1" % (e, o))
+            ops.append("step %d %d" % (o, now))
+            ops.append("flush %d" % o)
+            ops.append("relay %d %d 0 0 0 1" % (o, e))
+    return ops
+
+
 def hostile_datagram(r, c, e):
     """A datagram aimed at endpoint e's receive window (ids inside / at the edge / outside)."""
     base = c["pb"][1 - e]
@@ -122,6 +169,7 @@ def hostile_case(r):
     ops = ["seed %d" % r.randrange(U32)] + hcnew_lines(c)[:1]
     now = 0
     fnext = c["fb"][1]
+    nflush = 0
     for t in range(r.choice([5, 10, 25, 40])):
         k = r.random()
         if k < 0.45:
@@ -137,8 +185,10 @@ def hostile_case(r):
             ng = r.choice([0, 1, 1, 2, 3])
             fb = (c["fb"][0] + r.choice([0, 0, 1, 2, 3, 5, c["FW"], r.randrange(U32)])) % U32
             pb = (c["pb"][0] + r.choice([0, 0, 1, 2, 3, 5, c["W"], 2 ** 20, 2 ** 20 + 1, r.randrange(U32)])) % U32
-            gs = " ".join("%d %d %d" % ((c["fb"][0] + r.choice([0, 0, 1, 2, 30, 31, 32, r.randrange(U32)])) % U32,
-                                        r.choice([0, 1, 1, 3, 5, 7, 2 ** 31, U32 - 1, r.randrange(U32)]), r.randrange(2)) for _ in range(ng))
+            # group bases around (and just before) the frames this endpoint has sent so far; bitfields with
+            # clear low bits so that a group can start before the log and still name a remembered frame
+            gs = " ".join("%d %d %d" % ((c["fb"][0] + r.choice([0, 0, 1, 2, 30, 31, 32, -1, -1, -2, -3, -31, -32, nflush - 1, nflush, r.randrange(-3, nflush + 3), r.randrange(U32)])) % U32,
+                                        r.choice([0, 1, 1, 3, 5, 7, 2, 2, 4, 6, 8, 12, 1 << r.randrange(32), 2 ** 31, U32 - 1, r.randrange(U32)]), r.randrange(2)) for _ in range(ng))
             ops.append(("frame %d acks %d %d %d %s" % (e, fb, pb, ng, gs)).strip())
         elif k < 0.80:
             ops.append("send %d %d %d %d %d" % (e, r.randrange(64), r.randrange(4), pick_len(r, min(c["alloc"][1], 3 * F)), r.randrange(1000)))
@@ -148,6 +198,7 @@ def hostile_case(r):
             if r.random() < 0.6:
                 ops.append("credit %d %d" % (e, r.choice([-1, 0, 100, 5000, 1000000])))
             ops.append("flush %d" % e)
+            nflush += 1
         else:
             ops.append("recv %d" % e)
     ops.append("recv %d" % e)
